@@ -102,6 +102,10 @@ def gen_history(rnd):
             for n in range(1, rnd.choice([0, 0, 1, 2, 3]) + 1):
                 if rnd.random() < 0.85:           # occasionally a gap in the backup numbering
                     pre['#%s.%d#' % (p, n)] = 'backup-%s-%d\n' % (p, n)
+    # a pre-existing destination may be a symbolic link to a file in another directory: the link is the destination (it is
+    # what gets backed up and replaced), the directory it points into must never change
+    links = [p for p in paths if p in pre and rnd.random() < 0.12]
+
     def gen_ops(existing, tag, nmax=12):
         ops = []
         pending = {}       # path -> first mode
@@ -109,6 +113,8 @@ def gen_history(rnd):
             p = rnd.choice(paths)
             if p not in pending:
                 modes = ['w', 'w', 'w+', 'a', 'a+' if rnd.random() < 0.3 else 'a']
+                if p in links:
+                    modes = ['w', 'w', 'w+']        # appending through a link legitimately changes the link's target
                 if p in existing:
                     modes.append('r+')
                 m = rnd.choice(modes)
@@ -125,6 +131,8 @@ def gen_history(rnd):
     ops, touched = gen_ops(set(pre), 't')
     end = rnd.choice(['write', 'write', 'write', 'close', 'write-write', 'close-write'])
     hist = {'pre': pre, 'ops': ops, 'end': end}
+    if links:
+        hist['links'] = links
     if rnd.random() < 0.35:
         # the same writer object serves further rounds: a rejected (discarded) or accepted run is followed by another one
         # to the same output names in the same process
@@ -195,10 +203,21 @@ def run_history(hist, b, tmp_root=None):
         for name, text in hist['pre'].items():
             with open(os.path.join(dest, name), 'w') as f:
                 f.write(text)
+        store = os.path.join(base, 'store')
+        os.makedirs(store)
+        for name in hist.get('links', []):
+            shutil.move(os.path.join(dest, name), os.path.join(store, name + '.target'))
+            os.symlink(os.path.join(store, name + '.target'), os.path.join(dest, name))
+        store_before = snapshot(store)
         w = fresh_writer(tmpd)
         rounds = [{'ops': hist['ops'], 'end': hist['end']}] + list(hist.get('more', []))
         for rno, rd in enumerate(rounds):
             p_ = run_round(hist, rd, rno, w, dest, tmpd, b)
+            if not p_ and hist.get('links') and snapshot(store) != store_before:
+                p_ = ('finalise/link-target-directory-changed', {'store_before': sorted(store_before), 'store_after': sorted(snapshot(store)),
+                                                                 'links': hist['links']})
+            if hist.get('links'):
+                b.feat('histories_with_symlinked_destination')
             if p_:
                 if rno:
                     p_ = ('later-round/' + p_[0], dict(p_[1], round=rno, rounds=[r_['end'] for r_ in rounds]))
